@@ -282,6 +282,14 @@ func (s *c02rServer) db(n int) map[string]*c02rVal {
 
 // execute runs one command; s.mu is held
 func (s *c02rServer) execute(st *c02rConnState, name string, args []string) string {
+	if name == "eval" && len(args) == 9 {
+		// (driver adaptation) the collector's conditional delete : EVAL script 1 key offsetField
+		// seenOffset f3 f4 f5 - HDEL only while HGET key offsetField still equals seenOffset
+		if v, ok := s.db(st.db)[args[3]]; !ok || v.hash == nil || v.hash.vals[args[4]] != args[5] {
+			return ":0\r\n"
+		}
+		name, args = "hdel", []string{"hdel", args[3], args[4], args[6], args[7], args[8]}
+	}
 	if !s.known(name) {
 		return fmt.Sprintf("-ERR unknown command '%s'\r\n", name)
 	}
